@@ -34,9 +34,26 @@ import (
 
 const (
 	repoDir  = "/repo"
-	verifDir = "/verif"
 	goBinDir = "/opt/veriftools/go1.26.8/bin"
 )
+
+// verifDir is the root of the verification tree this binary belongs to: <verifDir>/bin/check. A
+// snapshot of /verif (vp run) therefore uses its own sim/, writes its own evidence/ and replays/.
+var verifDir = "/verif"
+
+func init() {
+	if v := os.Getenv("VERIF_DIR"); v != "" {
+		verifDir = v
+		return
+	}
+	if exe, err := os.Executable(); err == nil {
+		if d := filepath.Dir(exe); filepath.Base(d) == "bin" {
+			if _, err := os.Stat(filepath.Join(filepath.Dir(d), "sim", "simrt")); err == nil {
+				verifDir = filepath.Dir(d)
+			}
+		}
+	}
+}
 
 type tierCfg struct {
 	Runs      int // simulated runs (scheduler mode)
